@@ -306,6 +306,118 @@ class PStr(str):
     _IS_TENSORFLOW_PLUGIN = True
 
 
+# ---- targets that cannot be converted for a reason located INSIDE their body (the target itself is an ordinary function)
+
+class _Holder(object):
+    pass
+
+
+HOLDER = _Holder()
+setattr(HOLDER, '__hid', 'hidden')
+
+
+def make_nested_gen(log):
+    def target(a=0, b=2, *rest, k=3, **kw):
+        conv = _probe()
+
+        def gen():
+            for i in rest:
+                if i:
+                    yield i
+        r = ('N', a, b, rest, k, sorted(kw.items()))
+        log.append(('run', conv) + r)
+        total = []
+        for v in gen():
+            total.append(v)
+        return r + (total, list(gen()))
+    return target
+
+
+def make_nested_yield_from(log):
+    def target(a=0, b=2, *rest, k=3, **kw):
+        conv = _probe()
+
+        def gen():
+            if rest:
+                yield from rest
+            yield a
+        r = ('Y', a, b, rest, k, sorted(kw.items()))
+        log.append(('run', conv) + r)
+        return r + (list(gen()),)
+    return target
+
+
+def make_whileelse(log):
+    def target(a=0, b=2, *rest, k=3, **kw):
+        conv = _probe()
+        i = 0
+        while i < len(rest):
+            i += 1
+        else:
+            r = ('W', a, b, rest, k, sorted(kw.items()))
+        log.append(('run', conv) + r)
+        return r + (i,)
+    return target
+
+
+def make_nested_forelse(log):
+    def target(a=0, b=2, *rest, k=3, **kw):
+        conv = _probe()
+
+        def count():
+            n = 0
+            for x in rest:
+                n += 1
+            else:
+                n += 100
+            return n
+        r = ('O', a, b, rest, k, sorted(kw.items()))
+        log.append(('run', conv) + r)
+        return r + (count(),)
+    return target
+
+
+def make_mangled(log):
+    def target(a=0, b=2, *rest, k=3, **kw):
+        conv = _probe()
+        if a:
+            r = ('M', a, b, rest, k, sorted(kw.items()))
+        else:
+            r = ('m', a, b, rest, k, sorted(kw.items()))
+        log.append(('run', conv) + r)
+        return r + (HOLDER.__hid,)
+    return target
+
+
+def make_except_as(log):
+    def target(a=0, b=2, *rest, k=3, **kw):
+        conv = _probe()
+        try:
+            v = int('not a number')
+        except ValueError as e:
+            v = type(e).__name__
+        r = ('X', a, b, rest, k, sorted(kw.items()))
+        log.append(('run', conv) + r)
+        return r + (v,)
+    return target
+
+
+def make_nested_async(log):
+    import asyncio
+
+    def target(a=0, b=2, *rest, k=3, **kw):
+        conv = _probe()
+
+        async def co():
+            if a:
+                return ('co', a)
+            return ('co', 0)
+        r = ('A', a, b, rest, k, sorted(kw.items()))
+        log.append(('run', conv) + r)
+        return r + (asyncio.run(co()),)
+    return target
+
+
 def traced(fn, log):
     """a user decorator: all its wrappers share ONE code object; functools.wraps copies fn.__module__ onto the wrapper"""
     @functools.wraps(fn)
@@ -480,7 +592,8 @@ def default_facts(**kw):
 class Built(object):
     def __init__(self, f, facts, self_val=None, binds=False, loggable=True, sig='std', target_ents=None, log=None,
                  needs_self=None, result_kind='plain', note='', prebuilt_partial=False):
-        self.prebuilt_partial = prebuilt_partial   # b.f is itself a functools.partial built by the recipe
+        self.prebuilt_partial = prebuilt_partial
+        self.soft = False                          # conversion may fail for undeclared reasons (direct oracle only)   # b.f is itself a functools.partial built by the recipe
         self.f, self.facts, self.self_val, self.binds = f, facts, self_val, binds
         self.loggable, self.sig, self.log = loggable, sig, log
         self.target_ents = target_ents if target_ents is not None else [f]
@@ -571,6 +684,17 @@ def build(name, env, log):
     if base == 'forelse':
         f = Z.make_forelse(log)
         return Built(f, default_facts(ent=ent(mod=M), fail=('featureCheck', 'unsupportedElement')))
+    if base in ('nested_gen', 'nested_yield_from', 'whileelse', 'nested_forelse', 'mangled'):
+        # documented unsupported constructs located inside the body: rejected by the unsupported-feature check
+        f = getattr(Z, 'make_' + base)(log)
+        return Built(f, default_facts(ent=ent(mod=M), fail=('featureCheck', 'unsupportedElement')))
+    if base in ('except_as', 'nested_async'):
+        # constructs the pipeline may or may not handle (not a documented limitation): no failure is DECLARED; the oracle is
+        # transparency + the fallback contract whenever a conversion is observed to fail
+        f = getattr(Z, 'make_' + base)(log)
+        b = Built(f, default_facts(ent=ent(mod=M)))
+        b.soft = True
+        return b
     if base == 'nosource':
         ns = {'__name__': env.name, 'log': log, '_probe': Z._probe}
         exec(compile(NOSOURCE_SRC, '<c13-no-such-file>', 'exec'), ns)
@@ -885,7 +1009,8 @@ def rule_test_modules(rule_prefixes):
 
 
 BASES_STATIC = [
-    'fn', 'gfn', 'raiser', 'lambda', 'fn_unloadedmod', 'genfn', 'forelse', 'nosource', 'execfn', 'decorated', 'lru', 'dnc',
+    'fn', 'gfn', 'raiser', 'lambda', 'fn_unloadedmod', 'genfn', 'forelse', 'nested_gen', 'nested_yield_from', 'whileelse',
+    'nested_forelse', 'mangled', 'except_as', 'nested_async', 'nosource', 'execfn', 'decorated', 'lru', 'dnc',
     'tograph', 'convertwrapped', 'fn_selfattr', 'tfplugin',
     'partialmethod', 'posonly', 'staticmethod_obj',
     'fn_artifact', 'traced_copy', 'traced_user', 'mix_tc', 'mix_plain', 'bound_falsy_bool', 'bound_falsy_len', 'bound_emptylist', 'classm_falsy', 'classm_falsy_inst', 'callobj_falsy',
